@@ -44,10 +44,71 @@ PROFILE = G.profile(
     alters=(-2, -1, -1, 0, 0, 0, 0, 0, 1, 1, 2),
 )
 
-RECIP = {"breve": Fraction(1, 2), "whole": 1, "half": 2, "quarter": 4, "eighth": 8, "16th": 16, "32nd": 32, "64th": 64, "128th": 128}
+RECIP = {"long": Fraction(1, 4), "breve": Fraction(1, 2), "whole": 1, "half": 2, "quarter": 4, "eighth": 8, "16th": 16, "32nd": 32, "64th": 64, "128th": 128}
 
 
-SHORTER2 = {"whole": "quarter", "half": "eighth", "quarter": "16th", "eighth": "32nd", "16th": "64th", "32nd": "128th"}
+SHORTER2 = {"long": "whole", "breve": "half", "whole": "quarter", "half": "eighth", "quarter": "16th", "eighth": "32nd", "16th": "64th", "32nd": "128th"}
+
+# note values in order; scale_spec moves every value up (augmentation) or down (diminution) this list
+VALUE_ORDER = ["128th", "64th", "32nd", "16th", "eighth", "quarter", "half", "whole", "breve", "long"]
+
+
+def scale_spec(ps, k):
+    """The same music written in note values 2**k times as long (k > 0: whole -> breve / long, the timeline is stretched,
+    the beat unit of every time signature gets 2**k times as long) or 2**-k times as long (k < 0: 32nd -> 64th / 128th, the
+    divisions are multiplied instead).  Returns (spec, k actually applied): k is reduced until every value stays between
+    128th and long and every beat unit between 1 and 64.  An exact transformation of the abstract score: every notated
+    value still equals its length on the timeline."""
+    import copy as _copy
+
+    types = [n["sym"]["type"] for n in ps["notes"] if n.get("sym")]
+    bts = [bt for (_t, _b, bt) in ps["timesigs"]]
+    while k != 0:
+        idx = [VALUE_ORDER.index(t) + k for t in types]
+        ok = all(0 <= i < len(VALUE_ORDER) for i in idx)
+        ok = ok and all((bt % (2 ** k) == 0 and bt // (2 ** k) >= 1) if k > 0 else bt * 2 ** (-k) <= 64 for bt in bts)
+        if ok:
+            break
+        k += -1 if k > 0 else 1
+    if k == 0:
+        return ps, 0
+    ps = _copy.deepcopy(ps)
+    for n in ps["notes"]:
+        if n.get("sym"):
+            # (chord members may share one dict: every note gets its own)
+            n["sym"] = dict(n["sym"], type=VALUE_ORDER[VALUE_ORDER.index(n["sym"]["type"]) + k])
+    for tp in ps.get("tuplets", []):
+        tp[4] = VALUE_ORDER[VALUE_ORDER.index(tp[4]) + k]
+    if k > 0:
+        f = 2 ** k
+        for n in ps["notes"]:
+            n["t"] *= f
+            n["dur"] *= f
+        ps["measures"] = [[m[0] * f, m[1] * f] + list(m[2:]) for m in ps["measures"]]
+        ps["timesigs"] = [[t * f, b, bt // f] for (t, b, bt) in ps["timesigs"]]
+        ps["keysigs"] = [[x[0] * f] + list(x[1:]) for x in ps["keysigs"]]
+        ps["clefs"] = [[x[0] * f] + list(x[1:]) for x in ps.get("clefs", [])]
+        ps["end"] *= f
+        if ps.get("pickup") is not None:
+            ps["pickup"] *= f
+    else:
+        f = 2 ** (-k)
+        ps["divs"] = [[t, d * f] for (t, d) in ps["divs"]]
+        ps["timesigs"] = [[t, b, bt * f] for (t, b, bt) in ps["timesigs"]]
+    return ps, k
+
+
+def shift_octaves(ps, shift):
+    """All pitches `shift` octaves higher (the generator draws octaves 2..6; kern and MEI write any octave)."""
+    if not shift:
+        return ps
+    import copy as _copy
+
+    ps = _copy.deepcopy(ps)
+    for n in ps["notes"]:
+        if n.get("octave") is not None:
+            n["octave"] = n["octave"] + shift
+    return ps
 
 
 class Unrenderable(Exception):
@@ -104,6 +165,8 @@ class Model(object):
                     if (e["sym"].get("dots") or 0) != 2 or e["tup"] is not None:
                         out.append(e)
                         continue
+                    if e["sym"]["type"] not in SHORTER2:
+                        raise Unrenderable("double dotted value without a value two levels shorter")
                     short = SHORTER2[e["sym"]["type"]]
                     d2 = e["dur"] // 7
                     if d2 * 7 != e["dur"]:
@@ -163,7 +226,7 @@ class Model(object):
                         continue
                     gid, k, a, nn, ty = e["tup"]
                     if k == 0:
-                        order = ["128th", "64th", "32nd", "16th", "eighth", "quarter", "half", "whole", "breve"]
+                        order = VALUE_ORDER
                         up = {2: 1, 4: 2}[nn]
                         e["sym"] = {"type": order[order.index(ty) + up]}
                         e["dur"] = e["dur"] * a
